@@ -7,7 +7,11 @@ specificity), R17.4 wildcard acceptance and normaliser agreement of every _value
 Two layers: shape-based clauses (CFG dominance, reaching definitions, scenario evaluation of branch conditions) that
 give precise evidence on the usual spelling, and - for Accept.best_match, the first-match lookups and the sort in
 __init__ - a bounded exhaustive run of the function's statements on small inputs (`_arbitrate`), which decides
-whenever the shape-based clauses cannot be applied or do not hold.
+whenever the shape-based clauses cannot be applied or do not hold.  For Accept.best_match the run on all offer lists of
+up to three offers is an obligation of its own whenever the function can be followed (the shape-based scenarios test one
+step of the loop against an accurate best-so-far state; a branch that replaces the choice but leaves part of that
+state behind only shows on a sequence).  CharsetAccept._value_matches is followed with codecs.lookup answered by the
+scenario on both of its outcomes (codec found / LookupError).
 """
 
 from __future__ import annotations
@@ -20,7 +24,7 @@ from ..cfg import Node, cfg_of
 from ..fold import Folder, Unfoldable
 from ..loader import AnalysisError, AnchorMissing, ClassInfo, FuncInfo, dotted, nested_funcs, norm, walk_no_nested
 from ..report import Ctx
-from ._c17_helpers import UNK, Ev, FuncEval, Lang, crosscheck, fold_regex_expr, normalised, self_call, sole_method
+from ._c17_helpers import UNK, Ev, FuncEval, Lang, Obj, Raised, crosscheck, fold_regex_expr, normalised, self_call, sole_method
 
 LEVEL_TEXT = (
     "Static decision of structural clauses of C17 on /repo's current source. Every clause is decided on what the code "
@@ -53,12 +57,15 @@ LEVEL_TEXT = (
     "loop's branch conditions for all 18 order scenarios (q = 0 | q > 0) x (q vs best q) x (specificity vs best), plus the "
     "first-candidate scenarios with the initial state; the best-so-far state is updated together with the choice; "
     "offers are visited in caller order; after the loop the default is returned while nothing was chosen and the choice "
-    "otherwise. When best_match is not one loop with best-so-far state (candidates collected then ranked by max() / a "
-    "stable sort / a second scan, ...), or a clause of that shape cannot be decided or does not hold, the function is "
-    "instead followed statement by statement on all 1000 lists of three offers (and the shorter ones), each offer unmatched or matched "
+    "otherwise. Those scenarios test one step of the loop against an accurate best-so-far state; in addition (always, when "
+    "the function can be followed; as the only verdict when best_match is not one loop with best-so-far state - candidates "
+    "collected then ranked by max() / a stable sort / a second scan, ... - or a clause of that shape cannot be decided or "
+    "does not hold) the function is "
+    "followed statement by statement on all 1000 lists of three offers (and the shorter ones), each offer unmatched or matched "
     "with quality 0 / low / high and specificity low / middle / high, and must return the documented choice (first offer, "
-    "in caller order, with q > 0 whose (quality, specificity) no later offer exceeds; the default when there is none) - "
-    "that verdict then stands. LanguageAccept.best_match, run statement by statement on sample client lists and offer lists (2- and "
+    "in caller order, with q > 0 whose (quality, specificity) no later offer exceeds; the default when there is none): "
+    "a branch that replaces the choice but leaves part of the remembered (quality, specificity) behind - a stale standard "
+    "that a later, less specific offer of the same quality then beats - fails on a list of three. LanguageAccept.best_match, run statement by statement on sample client lists and offer lists (2- and "
     "3-letter primary tags, '-' and '_' separators, offers sharing a primary tag) with every negotiation it starts answered "
     "by the scenario, negotiates in exactly the three documented stages (own ranges on the offers; an Accept of the ranges' "
     "primary tags with the client's q kept, on the offers; own ranges on the offers' primary tags), returns a stage's offer "
@@ -84,7 +91,12 @@ LEVEL_TEXT = (
     "this clause; parse_accept_header only appends. (R17.4) every "
     "_value_matches accepts the wildcard range(s) of its family and compares both operands under the same normaliser "
     "(scenario tables per family, each scenario followed statement by statement through the method and the helpers it "
-    "calls; equality comparisons with locals expanded, also inside a helper that receives offer and range). NOT decided: "
+    "calls; equality comparisons with locals expanded, also inside a helper that receives offer and range); "
+    "CharsetAccept._value_matches is followed on 12 label pairs with every codecs.lookup call answered by the scenario on "
+    "both of its outcomes - a codec is found (one canonical name for every spelling and alias of the label) or LookupError "
+    "(the label is unknown to the registry), the exception taken to the handler that covers it - and must match labels "
+    "that differ only in case or are aliases of one codec, on the found path and on the handler's path alike (charset "
+    "names are case-insensitive whether or not Python ships a codec), and must not match different charsets. NOT decided: "
     "optimality of the negotiated offer over all headers and offer lists as "
     "a whole (it follows from these clauses together with list immutability, C08 R8.1, which is not re-checked here), "
     "the charset alias table of the codecs module, and media-range parameter semantics beyond the scenario table."
@@ -94,12 +106,14 @@ TRUSTED = [
     "Python semantics of sorted(..., reverse=True): stable, equal keys keep input order",
     "float() of an ASCII decimal numeral [+-]?(D+(.D*)?|.D+) returns its rounded decimal value and never raises",
     "RFC 9110 section 12.4.2 qvalue grammar embedded as a constant",
+    "documented behaviour of codecs.lookup: case-insensitive, one canonical .name per codec whatever alias was asked for, LookupError for an unknown label (answered by a table of sample labels, never called)",
+    "builtin exception hierarchy (which `except` clause covers LookupError)",
 ]
 ASSUMPTIONS = [
     "Accept lists are not reordered after construction (ImmutableList, property C08)",
     "scenario samples stand for order classes: branch conditions in the analysed loops are order comparisons between the scenario's quantities (anything else is treated as unknown and keeps both branches)",
     "helpers are followed when they are functions of the same module called by their bare name, or methods that no class of the Accept hierarchy overrides; their statements are interpreted on the scenario's constants (str / list / dict / re operations on folded patterns), never imported or run",
-    "following a function statement by statement means interpreting its syntax tree on sample values (assignments, branches, loops, comprehensions, sorted/max/min with key functions, list mutations); a statement outside that subset (try blocks, attribute stores other than on self, unknown calls with effects) makes the function not followable, and the shape-based verdict (or ANALYSIS-ERROR) stands",
+    "following a function statement by statement means interpreting its syntax tree on sample values (assignments, branches, loops, comprehensions, sorted/max/min with key functions, list mutations); a statement outside that subset (try blocks around anything but a call whose outcome - value or exception - the scenario fixes, attribute stores other than on self, unknown calls with effects) makes the function not followable, and the shape-based verdict (or ANALYSIS-ERROR) stands",
     "Accept.best_match is judged on offer lists of up to three offers over three quality and three specificity levels: a selection written with order comparisons of (quality, specificity) that is wrong is wrong on one of them",
     "LanguageAccept.best_match is judged on sample lists: tags are split at the first '-' or '_' (the documented primary-tag fallback); the samples cover 2/3-letter tags, both separators and offers that share a primary tag",
     "offers passed by the application are concrete values (no wildcards)",
@@ -1258,12 +1272,12 @@ def _r172(ctx: Ctx, folder: Folder, accept: ClassInfo, fam: list[ClassInfo]) -> 
 
     # not the one-loop-with-best-so-far-state shape, a step of it this evaluator cannot decide, or a clause of that shape
     # that does not hold: what the function returns on every short offer list decides
-    _arbitrate(ctx, lambda: _selection_loop(ctx, folder, accept, fam, normalised(bm)), lambda: _selection_model(ctx, folder, bm))
+    _arbitrate(ctx, lambda: _selection_loop(ctx, folder, accept, fam, normalised(bm)), lambda: _selection_model(ctx, folder, bm), always=True)
     if la is not None and "best_match" in la.methods:
         _language_fallbacks(ctx, folder, accept, fam, la, bm)
 
 
-def _arbitrate(ctx: Ctx, structural: t.Callable[[], None], model: t.Callable[[], str | None]) -> None:
+def _arbitrate(ctx: Ctx, structural: t.Callable[[], None], model: t.Callable[[], str | None], always: bool = False) -> None:
     """run the shape-based clauses; when they cannot be decided (AnalysisError) or one of them does not hold, the
     function is judged by ``model`` instead - following it statement by statement on an exhaustive set of small
     inputs - and that verdict replaces the shape-based one.  When the function cannot be followed either (``model``
@@ -1276,13 +1290,22 @@ def _arbitrate(ctx: Ctx, structural: t.Callable[[], None], model: t.Callable[[],
         raise
     except AnalysisError as e:
         failed = e
-    if failed is None and all(o.ok for o in ctx.obligations[mark[0]:]):
+    clean = failed is None and all(o.ok for o in ctx.obligations[mark[0]:])
+    if clean and not always:
         return
     kept_ = (ctx.obligations[mark[0]:], ctx.floors[mark[1]:], ctx.errors[mark[2]:])
     del ctx.obligations[mark[0]:], ctx.floors[mark[1]:], ctx.errors[mark[2]:]
     why = model()
     if why is None:
+        if clean:
+            # both layers decided: the shape-based clauses (one step of the loop against an accurate best-so-far state)
+            # stay as evidence, the run on whole input sequences is an obligation of its own - a stale-state defect
+            # (a branch that replaces the choice but leaves part of the standard behind) only shows on a sequence
+            ctx.obligations[mark[0]:mark[0]] = kept_[0]
+            ctx.floors[mark[1]:mark[1]] = kept_[1]
+            ctx.errors[mark[2]:mark[2]] = kept_[2]
         return
+    # the function cannot be followed on sample inputs: the shape-based outcome stands
     del ctx.obligations[mark[0]:], ctx.floors[mark[1]:], ctx.errors[mark[2]:]
     if failed is not None:
         raise AnalysisError(f"{failed} [and not decidable by following the function on sample inputs: {why}]")
@@ -2358,6 +2381,8 @@ def _r174(ctx: Ctx, folder: Folder, accept: ClassInfo, fam: list[ClassInfo]) -> 
             ok = truths == {expect} and not raises
             decided += 1
             ctx.ob("R17.4", f"{fi.qualname}: range {item!r} {'matches' if expect else 'does not match'} offer {value!r}", ok, f"evaluates to {got}", fi, fi.node, f"{fi.qualname} {item} vs {value}")
+        if kind == "charset":
+            decided += _charset_registry_scenarios(ctx, folder, fi, vp, ip)
         if kind != "mime":
             # both operands of an equality that involves the offer and the range go through the same normaliser
             non_mime += 1
@@ -2370,6 +2395,77 @@ def _r174(ctx: Ctx, folder: Folder, accept: ClassInfo, fam: list[ClassInfo]) -> 
                 ctx.ob("R17.4", f"{fi.qualname}: offer and range are compared under the same normaliser", same, f"`{norm(cmpn)}`" + (f" in {where_fi.qualname}" if where_fi is not fi else "") + f": offer side `{norm(l)}`, range side `{norm(r)}` (`_` = the value compared)", fi, cmpn, f"{fi.qualname} normaliser agreement")
     ctx.floor("R17.4", "decided match scenarios", decided, 30)
     ctx.floor("R17.4", "offer/range equality comparisons", agree, max(non_mime, 1))
+
+
+# the codec registry as documented (codecs.lookup: case-insensitive, aliases share one canonical name, LookupError for a
+# label it does not know): the answers a scenario gives for codecs.lookup(<label>)
+_CODECS = {"utf-8": "utf-8", "utf8": "utf-8", "u8": "utf-8", "latin1": "iso8859-1", "latin-1": "iso8859-1", "iso-8859-1": "iso8859-1", "ascii": "ascii", "us-ascii": "ascii"}
+# (client range, offer, expected, what the pair stands for); labels absent from _CODECS are unknown to the registry
+_CHARSET_SCEN = [
+    ("utf-8", "utf-8", True, "same label, codec found"),
+    ("UTF-8", "utf-8", True, "case differs, codec found"),
+    ("utf8", "UTF-8", True, "alias of the same codec"),
+    ("latin1", "ISO-8859-1", True, "alias of the same codec"),
+    ("utf-8", "latin1", False, "different codecs"),
+    ("us-ascii", "utf-8", False, "different codecs"),
+    ("x-user-defined", "x-user-defined", True, "same label, no codec (LookupError on both sides)"),
+    ("X-User-Defined", "x-user-defined", True, "case differs, no codec (LookupError on both sides)"),
+    ("iso-2022-cn", "ISO-2022-CN", True, "case differs, no codec (LookupError on both sides)"),
+    ("x-user-defined", "x-other", False, "different labels, no codec"),
+    ("utf-8", "x-user-defined", False, "codec found for the range only"),
+    ("X-User-Defined", "utf-8", False, "codec found for the offer only"),
+]
+
+
+def _charset_registry_scenarios(ctx: Ctx, folder: Folder, fi: FuncInfo, vp: str, ip: str) -> int:
+    """CharsetAccept._value_matches followed statement by statement on charset labels with every call of codecs.lookup
+    answered by the scenario on BOTH of its outcomes - a codec is found (a record whose .name is the canonical name,
+    the same for every spelling and alias of the label) or LookupError is raised (the label is not in the registry) -
+    so that each path of the normaliser, the handler's included, has to produce a case-insensitive, alias-free form.
+    Charset names are case-insensitive whether or not Python ships a codec for them."""
+    repo = ctx.repo
+    seen_lookup: list[int] = []
+
+    def hook(call: ast.Call, ev: Ev, env: dict, fe: FuncEval):
+        d = dotted(call.func)
+        fq = repo.resolve(fe.fi.module, d, fe.fi.module.local_imports(fe.fi.node)) if d else None
+        if fq != "codecs.lookup" or len(call.args) != 1 or call.keywords:
+            return NotImplemented
+        if isinstance(call.func, ast.Name) and (call.func.id in env or (ev.node is not None and fe.rd.reaching(ev.node, call.func.id))):
+            return NotImplemented  # a local binding shadows the import
+        a = ev.val(call.args[0], env)
+        if not isinstance(a, str):
+            return UNK
+        seen_lookup.append(1)
+        canon = _CODECS.get(a.lower())
+        if canon is None:
+            raise Raised("LookupError")
+        return Obj(name=canon)
+
+    n = 0
+    for item, value, expect, what in _CHARSET_SCEN:
+        fe = FuncEval(repo, folder, fi, params={vp: value, ip: item}, call_hook=hook)
+        fe.raising = True
+        try:
+            res = fe.concrete()
+        except Raised as sig:
+            res = ("raise", sig.exc)
+        if res is None or (res[0] == "return" and res[1] is UNK):
+            raise AnalysisError(f"{fi.qualname}: cannot follow the comparison of range {item!r} with offer {value!r} statement by statement (codecs.lookup answered by the scenario: "
+                                f"{'codec ' + _CODECS[item.lower()] if item.lower() in _CODECS else 'LookupError'} / {'codec ' + _CODECS[value.lower()] if value.lower() in _CODECS else 'LookupError'})")
+        if res[0] == "raise":
+            ok, got = False, f"raises{' ' + res[1] if res[1] else ''}"
+        else:
+            try:
+                ok, got = bool(res[1]) == expect, f"evaluates to {bool(res[1])}"
+            except Exception:
+                raise AnalysisError(f"{fi.qualname}: result of comparing {item!r} with {value!r} has no truth value")
+        n += 1
+        ctx.ob("R17.4", f"{fi.qualname}: range {item!r} {'matches' if expect else 'does not match'} offer {value!r} ({what})", ok,
+               f"{got} with codecs.lookup answered as documented ({item!r}: {'codec ' + repr(_CODECS[item.lower()]) if item.lower() in _CODECS else 'LookupError'}, {value!r}: {'codec ' + repr(_CODECS[value.lower()]) if value.lower() in _CODECS else 'LookupError'})",
+               fi, fi.node, f"{fi.qualname} {item} vs {value}")
+    ctx.floor("R17.4", "charset scenarios with the codec registry answered on both outcomes", n, len(_CHARSET_SCEN))
+    return n
 
 
 def _expanded(fe: FuncEval, e: ast.AST, node: Node | None, mp: dict[str, str], depth: int = 0) -> ast.AST:
